@@ -104,16 +104,42 @@ def run(prop, tier):
     fams = FAMILIES_QUICK if tier == "quick" else FAMILIES_THOROUGH
     cases, gstats = p_val.generate(fams, tag)
     common = __import__("p_hash").pool()
+    # the program of Modules.tla spread over files (every layout within 2 / 3 changes of the single-file program): named types
+    # of other files, same-named declarations, paths that become parts of generated identifiers
+    import p_modules
+    ld = os.path.join(vlib.WORK, tag + "-layouts")
+    os.makedirs(ld, exist_ok=True)
+    layouts, lgr = p_modules.layouts_to_depth(ld, 2 if tier == "quick" else 3)
+    lprobes = p_modules.layout_probes()
+    seen_files = set()
+    nlay = 0
+    for L in layouts:
+        if L["expected"] != "same-as-single-file":
+            continue
+        files = p_modules.render(L)
+        key = json.dumps(files)
+        if key in seen_files:
+            continue
+        seen_files.add(key)
+        nlay += 1
+        cases.append({"fam": "layout", "ty": {"t": "ref", "n": "T"}, "env": [], "probes": [{"v": v} for v in lprobes], "_files": files,
+                      "_recursive": True})
+    gstats = dict(gstats, distinct=gstats["distinct"] + lgr["distinct"], states=gstats["states"] + lgr["states"],
+                  families=dict(gstats["families"], layout={"depth": 2 if tier == "quick" else 3, "programs": nlay}))
     # generation 1
     reqs = []
     for i, c in enumerate(cases):
+        if "_files" in c:
+            c["_src"] = "\n".join(f"// file {n}\n{t}" for n, t in c["_files"])
+            reqs.append(vlib.compile_req(i, c["_files"]))
+            continue
         c["_src"] = vlib.render_program(c["env"], c["ty"])
         reqs.append(vlib.compile_req(i, [("entry.ts", c["_src"])]))
     comp = vlib.compile_all(reqs)
     jobs = []
     for i, (c, r) in enumerate(zip(cases, comp)):
         c["_comp"] = r
-        c["_probes"] = [p["v"] for p in c["probes"]] + common
+        c["_probes"] = [p["v"] for p in c["probes"]] + ([] if "_files" in c else common)
         if r["outcome"] == "code":
             jobs.append({"id": i, "code": r["code"], "root": "T", "probes": c["_probes"], "ops": ["validate", "hash", "describe"]})
     obs1 = vlib.run_driver(jobs, tag + "-g1")
@@ -141,7 +167,7 @@ def run(prop, tier):
         o1 = obs1.get(i)
         rec = {"id": i, "outcome": c["_comp"]["outcome"] if (o1 is None or o1["load"] == "ok") else "load-failed",
                "refunder": ref_under_union(c["ty"]) or any(ref_under_union(d.get("ty", {})) for d in c["env"]),
-               "recursive": has_recursive_decl(c["env"]),
+               "recursive": c.get("_recursive", False) or has_recursive_decl(c["env"]),
                "inexactlit": any(x in c["_src"] for x in INEXACT_LITERALS),
                "namedinter": named_inter_member(c["ty"]) or any(named_inter_member(d.get("ty", {})) for d in c["env"]),
                "optixnamed": False,
